@@ -68,7 +68,7 @@ def gen_ext(rng, long_lines=False):
     return b';' + e
 
 
-def gen_encoding(rng, maxlen=60):
+def gen_encoding(rng, maxlen=60, long_ok=True):
     """returns dict(data, payload, lines=[(start,end)], terms=[(pos)], last_end, nchunks, maxline)"""
     ln = rng.choice([0, 1, 2, 3, 5, 8, 16, 17, 33]) if rng.random() < 0.4 else rng.randrange(0, maxlen + 1)
     payload = bytes(rng.choice([0, 10, 13, 48, 59, 255, rng.randrange(256)]) for _ in range(ln))
@@ -76,7 +76,7 @@ def gen_encoding(rng, maxlen=60):
     if ln >= 8 and rng.random() < 0.3:
         k = rng.randrange(0, ln - 5)
         payload = payload[:k] + b'\r\n0\r\n' + payload[k + 5:]
-    mp_form = rng.random() < 0.08
+    mp_form = long_ok and rng.random() < 0.08
     if mp_form:
         # a multipart form whose closing delimiter is followed by an epilogue: all of it is the body
         payload = (b'--XyZ\r\nContent-Disposition: form-data; name="a"\r\n\r\nv\r\n--XyZ--\r\n'
@@ -86,7 +86,7 @@ def gen_encoding(rng, maxlen=60):
     parts = [payload[a:b] for a, b in zip([0] + cuts, cuts + [ln])] if ln else []
     out = b''
     lines, terms = [], []
-    long_lines = rng.random() < 0.12
+    long_lines = long_ok and rng.random() < 0.12
     if mp_form:
         parts = [payload[:7], payload[7:]] if len(payload) > 7 else [payload]
     for p in parts:
@@ -181,9 +181,7 @@ def expected_status(emap, k):
     return d.get(k, d.get(0))
 
 
-TE_CHUNKED = ['chunked', 'chunked', 'chunked', 'Chunked', 'CHUNKED', 'chunKed', 'gzip, chunked', 'xchunkedx',
-              '\xc0chunked\xff', 'CHUNKED\xb5', ' chunked ']
-TE_OTHER = ['identity', '', 'chunke', 'chunk ed', 'chun\xc7ked', 'gzip']
+from props.bodyA_shared import TE_CHUNKED, TE_OTHER  # noqa: E402  (shared with C13)
 PRE_OPS = ['partial', 'copy', 'copy_after', 'second', 'chunked_prop']
 
 
@@ -445,8 +443,19 @@ def corpus():
 def thorough():
     import random
     rng = random.Random('C05/thorough')
+    # size lines of 65..300 bytes: every third strict prefix, buffer = the longest line and the 100 KiB default
+    n_long = 0
+    while n_long < 4:
+        enc = gen_encoding(rng, maxlen=12)
+        if enc['maxline'] <= 64:
+            continue
+        n_long += 1
+        data = enc['data']
+        for buf in (enc['maxline'], DEFAULT_MEMFILE):
+            for cut in range(0, len(data) + 1, 3):
+                yield mk(enc, data[:cut], buf, [], expect_for(enc, buf, cut), 'prefix' if cut < len(data) else 'legal')
     for _ in range(40):
-        enc = gen_encoding(rng, maxlen=24)
+        enc = gen_encoding(rng, maxlen=24, long_ok=False)
         data = enc['data']
         for buf in (enc['maxline'], enc['maxline'] + 5):
             for sched in ([], [0] * (len(data) + 4), gen_sched(rng, len(data))):
